@@ -116,7 +116,7 @@ def gen_cases(rng, tier):
         qu, qv = views.units[u]['quantum'], views.units[v]['quantum']
         dm = rng.choice(W.MODES)
         o = rng.choice(['mk', 'mk', 'mkstr', 'add', 'sub', 'neg', 'abs', 'muln', 'rmuln',
-                        'divn', 'convert', 'quantize', 'round', 'sum', 'mkfloat',
+                        'divn', 'convert', 'quantize', 'round', 'sum', 'mkfloat', 'mkfloat',
                         'pow1', 'rdivq', 'rdivu'])
         if o == 'mk':
             op = {'o': 'mk', 'n': _amount(rng, qu), 'u': u,
@@ -125,7 +125,14 @@ def gen_cases(rng, tier):
             if op['n'][0] == 'dec' and op['how'] in ('cls', 'generic') and rng.random() < 0.3:
                 op['n'][0] = 'stddec'     # decimal.Decimal: constructor only
         elif o == 'mkfloat':
-            op = {'o': 'mk', 'n': _float_amount(rng), 'u': u, 'how': 'mul'}
+            # a float is its exact binary value: the decimal literal of a tie (2.675) lies
+            # BESIDE the tie; every way of constructing (seeded C18-f: Money(float) via repr)
+            n = _float_amount(rng)
+            if qu is not None and rng.random() < 0.7:
+                lit = float(F(rng.choice([2675, 1005, 1015, 7, 29, 1245, 9995, -2675, 35]), 10) * F(qu))
+                n = ['float', lit.hex()]
+            op = {'o': 'mk', 'n': n, 'u': u, 'how': rng.choice(['mul', 'rmul', 'cls', 'cls', 'generic']),
+                  'cls': views.units[u]['clsname']}
         elif o == 'mkstr':
             a = (rng.choice(KS[:9]) + rng.choice(TIES)) * qu
             if W.is_decimal(a):
@@ -184,6 +191,16 @@ def gen_cases(rng, tier):
                       'op': {'o': rng.choice(['pow2', 'rdivq', 'rdivu', 'pow-1']),
                              'hf': hf, 'amt': amt,
                              'k': rng.choice(['3/1', '1/1', '7/2', '-5/1'])}})
+    # money from a FLOAT, through every constructor, at decimal literals of ties and of grid
+    # points (the float's exact binary value lies beside them): seeded C18-f
+    for cur, qu in (('EUR', F(1, 100)), ('BHD', F(1, 1000)), ('JPY', F(1))):
+        for k in (2675, 1005, 1015, 7, 29, -2675):
+            lit = float(F(k, 10) * qu) if k not in (7, 29) else float(F(k) * qu)
+            for dm in (W.MODES if tier == 'thorough' else rng.sample(W.MODES, 4)):
+                for how in ('cls', 'mul', 'generic'):
+                    cases.append({'dm': dm, 'world': {'currencies': [cur]},
+                                  'op': {'o': 'mk', 'n': ['float', lit.hex()], 'u': cur,
+                                         'how': how, 'cls': 'Money'}})
     # exchange-rate application to money: C10's cases with a money operand (incl. the
     # amounts beside a rounding tie of the target currency); C10's harness and oracle
     money = [c for c in C10.gen_cases(rng, tier) if c['q']['x'][-1] in dict(C10.CURS)]
